@@ -79,6 +79,11 @@ def gen(rng, tier):
         d = bytes(rng.getrandbits(8) for _ in range(rng.choice([0, 1, 31, 32, 33, 135, 136, 137, 1000])))
         add("cli.hash_data " + hx(d), ("hash_data",))
         add("cli.hash_message " + hx(d), ("hash_message",))
+    from vlib import magic
+    for d, tag in magic.variants(rng, bytes(rng.getrandbits(8) for _ in range(5))):
+        add("cli.hash_data " + hx(d), ("hash_data", tag), {"via_file": rng.random() < 0.5})
+    # JSON documents with a byte-order mark / other marks before or after them: RFC 8259 §8.1 lets a parser ignore a BOM but
+    # does not require it; the model (serde_json) refuses, and the spec predicate is silent — only model agreement is checked
     for _ in range(n * 2):
         j, _ = txgen.rand_tx(rng)
         add("cli.hash_tx %s none" % hx(j), ("hash_tx",))
